@@ -176,8 +176,17 @@ def oraclesOfJson (j : Json) : Except String Oracles := do
     | some x => (← x.getArr?).toList.mapM fun t => do
       let a ← t.getArr?
       pure ((← a[0]!.getStr?), (← a[1]!.getStr?), (← a[2]!.getBool?))
+  -- `__validate__` hooks of the correspondence suites: the hook raises when field `f` is set and
+  -- equal (Python ==) to `v`, for one of the listed pairs
+  let hooks : List (String × PyVal) ← match optField j "hook" with
+    | none => pure []
+    | some x => (← x.getArr?).toList.mapM fun t => do
+      let a ← t.getArr?
+      pure ((← a[0]!.getStr?), (← valOfJson a[1]!))
   pure { reMatch := fun p s => match table.find? (fun t => t.1 == p && t.2.1 == s) with
-                                | some t => t.2.2 | none => false }
+                                | some t => t.2.2 | none => false,
+         hookOk := fun st => hooks.all fun h => match lookup h.1 st with
+                                | some x => !PyVal.pyEq x h.2 | none => true }
 
 def kwOfJson (j : Json) : Except String (List (String × PyVal)) := do
   (← j.getArr?).toList.mapM fun kv => do
